@@ -9,10 +9,10 @@ use std::time::{Duration, SystemTime};
 use pie::{Resource, ResourceChecker};
 use pie::resource::file::{ExistsChecker, ModifiedChecker, OpenRead};
 use pie::resource::file::hash_checker::HashChecker;
-use pie::Pie;
+use pie::{Pie, Context, Task};
 
 pub struct Fail { pub prop: &'static str, pub ob: &'static str, pub what: String }
-macro_rules! fail { ($o:expr, $($t:tt)*) => { return Err(Fail { prop: "C13", ob: $o, what: format!($($t)*) }) } }
+macro_rules! fail { ($o:expr, $($t:tt)*) => { return Err(Fail { prop: if $o.starts_with("C05") { "C05" } else if $o.starts_with("C06") { "C06" } else { "C13" }, ob: $o, what: format!($($t)*) }) } }
 
 #[derive(Clone, Debug, PartialEq)]
 pub enum St { Absent, File { size: usize, fill: u8, t: u64 }, Dir { names: Vec<&'static [u8]>, t: u64 } }
@@ -131,3 +131,52 @@ pub fn run_index(dir: &Path, ix: usize) -> Result<(), Fail> {
 pub fn cases() -> usize { let n = states().len(); n * n + n * 5 }
 pub fn scratch() -> PathBuf { let d = std::env::temp_dir().join(format!("pie_replay_fs_{}", std::process::id())); let _ = fs::remove_dir_all(&d); fs::create_dir_all(&d).unwrap(); d }
 pub fn cleanup(d: &Path) { let _ = fs::remove_dir_all(d); }
+
+// ---- builds over real files: a diagnosed violation on the writing side aborts before the file is touched (C05/C06) ----------------
+#[derive(Clone, PartialEq, Eq, Hash, Debug)] pub struct WriteFile(pub PathBuf, pub &'static str, pub u8);
+impl Task for WriteFile {
+  type Output = bool;
+  fn execute<C: Context>(&self, c: &mut C) -> bool { c.write(&self.0, ModifiedChecker, |f: &mut File| { f.write_all(self.1.as_bytes()).map_err(|e| e.kind())?; Ok(()) }).is_ok() }
+}
+#[derive(Clone, PartialEq, Eq, Hash, Debug)] pub struct ReadFile(pub PathBuf);
+impl Task for ReadFile {
+  type Output = Option<String>;
+  fn execute<C: Context>(&self, c: &mut C) -> Option<String> {
+    let mut r = c.read(&self.0, ModifiedChecker).ok()?; let mut s = String::new();
+    if let Some(f) = r.as_file() { f.read_to_string(&mut s).ok()?; Some(s) } else { None }
+  }
+}
+fn panic_text(e: Box<dyn std::any::Any + Send>) -> String { e.downcast_ref::<String>().cloned().or_else(|| e.downcast_ref::<&str>().map(|s| s.to_string())).unwrap_or_default() }
+pub fn file_builds(dir: &Path) -> Result<(), Fail> {
+  use std::panic::{catch_unwind, AssertUnwindSafe};
+  let p = dir.join("generated.txt");
+  // overlapping write, same and next session
+  for next_session in [false, true] {
+    clear(&p);
+    let mut pie: Pie<()> = Pie::default();
+    let second = catch_unwind(AssertUnwindSafe(|| {
+      let mut s = pie.new_session(); s.require(&WriteFile(p.clone(), "one", 1));
+      if next_session { drop(s); let mut s2 = pie.new_session(); s2.require(&WriteFile(p.clone(), "two", 2)) } else { s.require(&WriteFile(p.clone(), "two", 2)) }
+    }));
+    match second {
+      Ok(_) => fail!("C06.bounded.overlapping_write_to_a_file_aborts", "a second task wrote {:?} without an abort (next session: {})", p, next_session),
+      Err(e) => { let m = panic_text(e); if !m.starts_with("Overlapping write") { fail!("C06.bounded.overlapping_write_to_a_file_aborts", "expected an overlapping-write abort, got `{}`", m); } }
+    }
+    let now = fs::read_to_string(&p).unwrap_or_default();
+    if now != "one" { fail!("C06.bounded.abort_before_the_file_is_modified", "after the overlapping-write abort the file holds {:?}, the first writer wrote \"one\" (next session: {})", now, next_session); }
+  }
+  // hidden dependency diagnosed on the writing side: a recorded reader, then a writer the reader does not require
+  {
+    clear(&p); io_plain(fs::write(&p, "hand-written"))?;
+    let mut pie: Pie<()> = Pie::default();
+    let r = catch_unwind(AssertUnwindSafe(|| { let mut s = pie.new_session(); s.require(&ReadFile(p.clone())); s.require(&WriteFile(p.clone(), "generated", 3)) }));
+    match r {
+      Ok(_) => fail!("C05.bounded.hidden_write_to_a_file_aborts", "a task wrote a file another task had read, without an abort"),
+      Err(e) => { let m = panic_text(e); if !m.starts_with("Hidden dependency") { fail!("C05.bounded.hidden_write_to_a_file_aborts", "expected a hidden-dependency abort, got `{}`", m); } }
+    }
+    let now = fs::read_to_string(&p).unwrap_or_default();
+    if now != "hand-written" { fail!("C05.bounded.abort_before_the_file_is_modified", "after the hidden-dependency abort the file holds {:?} instead of \"hand-written\"", now); }
+  }
+  Ok(())
+}
+fn io_plain<T>(r: std::io::Result<T>) -> Result<T, Fail> { r.map_err(|e| Fail { prop: "C13", ob: "C13.bounded.io_error", what: format!("{:?}", e) }) }
